@@ -14,6 +14,7 @@ What the proof leaves open are three classes, each an open finding with a `decid
   F17  different ranking keys among same-method candidates (literal segments vs literal characters)
 -/
 import Restful.Lemmas.Agree
+import Restful.Lemmas.StateShape
 namespace Restful
 namespace Props
 variable (E : ReEnv)
@@ -67,6 +68,12 @@ theorem C18_ranksAgree_of_unique_eligible (cfg : Config) (hwf : Spec.wfCommon cf
 -- also: Restful.C18Witness.C18_F17_witness
 -- also: Restful.C18Witness.C18_emptyRootToken_witness
 -- also: Restful.C18Witness.C18_duplicateIds_witness
+
+/-! The frame condition (Lemmas/StateShape.lean): the code has exactly the state this property's model
+    accounts for — no further package-level variable, struct type or field; constants as modelled. -/
+-- also: Restful.StateShape.globals_shape
+-- also: Restful.StateShape.consts_shape
+-- also: Restful.StateShape.routing_shape
 
 end Props
 end Restful
